@@ -8,7 +8,7 @@ import math
 
 from . import pe as P
 from .pe import (Tensor, Obj, Func, ClassRef, Ext, ShapeV, Opaque, C, fr,
-                 is_num, mkfloat, is_floaty, PyRaise, FloatTag)
+                 is_num, mkfloat, is_floaty, PyRaise, FloatTag, Mock)
 from .nf import log2_exact
 
 # canonical names -> elementwise unary application name
@@ -319,6 +319,18 @@ def call(pe, name, args, kwargs, node):
               "pyparsing.ZeroOrMore", "pyparsing.delimited_list"):
     from . import gram
     return gram.make(pe, name.split(".")[-1], args, kwargs)
+  if name in ("re.match", "re.search", "re.fullmatch"):
+    import re as _re
+    pat, text = args[0], args[1]
+    if isinstance(pat, str) and isinstance(text, str):
+      try:
+        m = getattr(_re, name.split(".")[1])(pat, text)
+      except _re.error:
+        raise PyRaise("error", "bad regular expression %r" % pat)
+      return Opaque("match") if m is not None else None
+    pe.err("%s on non-constant strings" % name, node)
+  if name in ("json.dumps",):
+    return "<json>"
   if name == "re.sub":
     import re as _re
     pat, rep_, text = args[0], args[1], args[2]
@@ -395,6 +407,8 @@ def call(pe, name, args, kwargs, node):
         return True
       _, ca = o.cls.find_class_attr(n)
       return ca is not None
+    if isinstance(o, Mock):
+      return n in o.attrs
     if isinstance(o, Tensor):
       return n in ("shape", "numpy", "dtype")
     if isinstance(o, ShapeV):
@@ -410,6 +424,14 @@ def call(pe, name, args, kwargs, node):
   if name == "setattr":
     pe.setattr(args[0], args[1], args[2])
     return None
+  if name == "map":
+    f = args[0]
+    seqs = [pe.iterate(a) for a in args[1:]]
+    return [pe.call(f, list(t), {}) for t in zip(*seqs)]
+  if name == "filter":
+    f = args[0]
+    return [v for v in pe.iterate(args[1])
+            if pe.truth(pe.call(f, [v], {}) if f is not None else v)]
   if name == "zip":
     return [tuple(t) for t in zip(*[pe.iterate(a) for a in args])]
   if name == "enumerate":
@@ -577,6 +599,13 @@ def call(pe, name, args, kwargs, node):
       if isinstance(x, (list, tuple)) and concrete_list(x) and \
           REDUCE[name] in ("reduce_max", "reduce_min"):
         return (max if REDUCE[name] == "reduce_max" else min)(x)
+      if isinstance(x, (list, tuple)) and x and \
+          REDUCE[name] in ("reduce_max", "reduce_min"):
+        r = x[0]
+        for e in x[1:]:
+          r = minmax(pe, "maximum" if REDUCE[name] == "reduce_max"
+                     else "minimum", r, e)
+        return r
       if is_num(x):
         return x
       pe.err("%s of %r" % (name, x), node)
